@@ -1,4 +1,6 @@
 import PGM.Proofs.BPCorrect
+import PGM.Proofs.SumOver
+import PGM.Proofs.VEFactor
 /-!
 # C01 — exact inference returns the true marginals of the product distribution
 
@@ -19,41 +21,108 @@ theorem logZ_correct (d : Dom) (cliques : List Clique) (t : Tree) (order : List 
   Sem.BP.logZ_correct d cliques t order pots hok
 
 /-- **exact inference is exact**: for every junction tree, every accepted message schedule, every
-nonnegative potential (zeros = `-∞` included) and every total, each returned clique table is
-`total · marginal / Z` of the product of the potentials -/
+nonnegative potential (zeros = `-∞` included) and every POSITIVE total, each returned clique table is
+`total · marginal / Z` of the product of the potentials.
+
+`0 < total` is the property's "any positive total" and the range in which the model reads the code: the source computes
+`np.log(total)`, which is `nan` for a negative total, whereas at `LogOf K` (`log := id` on the exp-space carrier) the
+identity below is plain field algebra and holds for EVERY `total : K` (`Sem.BP.bp_marginals`, no sign hypothesis — a
+negative total gives negative "marginals" there).  The hypothesis is therefore not used by the proof; it restricts the
+statement to the inputs on which it is a statement about the code. -/
 theorem bp_marginals (d : Dom) (cliques : List Clique) (t : Tree) (order : List (Clique × Clique))
     (pots : CliqueVec (LogOf K)) (hok : ModelOK d cliques t order pots) (total : LogOf K)
-    (hZ : partition d pots ≠ 0) (c : Clique) (hc : c ∈ cliques) (σ : Attr → Nat) (hσ : d.Valid σ) :
+    (hZ : partition d pots ≠ 0) (_htot : 0 < total.v) (c : Clique) (hc : c ∈ cliques) (σ : Attr → Nat) (hσ : d.Valid σ) :
     ((beliefPropagation cliques order pots total).get c).dom.attrs = (pots.get c).dom.attrs ∧
     (((beliefPropagation cliques order pots total).get c).sem σ).v
       = total.v * marginal d pots c σ / partition d pots :=
   Sem.BP.bp_marginals d cliques t order pots hok total hZ c hc σ hσ
 
-/-- **schedule independence**: any two dependency-respecting message orders give the same tables -/
+/-- **schedule independence**: any two dependency-respecting message orders give the same tables (positive total) -/
 theorem bp_schedule_indep (d : Dom) (cliques : List Clique) (t : Tree)
     (order order' : List (Clique × Clique)) (pots : CliqueVec (LogOf K))
     (hok : ModelOK d cliques t order pots) (hok' : ModelOK d cliques t order' pots) (total : LogOf K)
-    (hZ : partition d pots ≠ 0) (c : Clique) (hc : c ∈ cliques) (σ : Attr → Nat) (hσ : d.Valid σ) :
+    (hZ : partition d pots ≠ 0) (htot : 0 < total.v) (c : Clique) (hc : c ∈ cliques) (σ : Attr → Nat) (hσ : d.Valid σ) :
     (((beliefPropagation cliques order pots total).get c).sem σ).v
       = (((beliefPropagation cliques order' pots total).get c).sem σ).v := by
-  rw [(bp_marginals d cliques t order pots hok total hZ c hc σ hσ).2,
-      (bp_marginals d cliques t order' pots hok' total hZ c hc σ hσ).2]
+  rw [(bp_marginals d cliques t order pots hok total hZ htot c hc σ hσ).2,
+      (bp_marginals d cliques t order' pots hok' total hZ htot c hc σ hσ).2]
 
-/-- **independence of the junction tree** (hence of the elimination order that produced it): two
-valid trees over possibly different node sets answer identically on any clique they share -/
+/-- **independence of the junction tree** (hence of the elimination order that produced it) **and of constant shifts**:
+two valid trees over possibly different node sets, carrying potentials whose products agree on every IN-RANGE assignment
+up to a constant factor `k ≠ 0` (`k = 1`: the same distribution laid out on different trees; `k = exp c`: a constant `c`
+added to a log-space potential), answer identically on any clique they share.
+
+The products are compared on `d.Valid τ` only: on an out-of-range `τ` a table lookup reads the default `⟨1⟩`, so the
+earlier hypothesis `∀ τ, joint pots τ = joint pots' τ` was unsatisfiable for two genuinely different layouts. -/
 theorem bp_tree_indep (d : Dom) (cliques cliques' : List Clique) (t t' : Tree)
     (order order' : List (Clique × Clique)) (pots pots' : CliqueVec (LogOf K))
     (hok : ModelOK d cliques t order pots) (hok' : ModelOK d cliques' t' order' pots') (total : LogOf K)
-    (hjoint : ∀ τ, joint pots τ = joint pots' τ)
-    (hZ : partition d pots ≠ 0) (c : Clique) (hc : c ∈ cliques) (hc' : c ∈ cliques')
+    (k : K) (hk : k ≠ 0) (hjoint : ∀ τ, d.Valid τ → joint pots τ = k * joint pots' τ)
+    (hZ : partition d pots ≠ 0) (htot : 0 < total.v) (c : Clique) (hc : c ∈ cliques) (hc' : c ∈ cliques')
     (σ : Attr → Nat) (hσ : d.Valid σ) :
     (((beliefPropagation cliques order pots total).get c).sem σ).v
       = (((beliefPropagation cliques' order' pots' total).get c).sem σ).v := by
-  have hpart : partition d pots = partition d pots' := by
-    unfold partition sumOver; simp only [hjoint]
-  have hmarg : marginal d pots c σ = marginal d pots' c σ := by
-    unfold marginal sumOver; simp only [hjoint]
-  rw [(bp_marginals d cliques t order pots hok total hZ c hc σ hσ).2,
-      (bp_marginals d cliques' t' order' pots' hok' total (hpart ▸ hZ) c hc' σ hσ).2, hpart, hmarg]
+  have h0 : d.Valid (fun _ => 0) := fun p hp => Nat.zero_lt_of_lt (hσ p hp)
+  have hpart : partition d pots = k * partition d pots' := by
+    unfold partition
+    rw [← sumOver_mul_left]
+    exact sumOver_congr_valid d hok.dom_wf _ _ _ _ h0 hjoint
+  have hmarg : marginal d pots c σ = k * marginal d pots' c σ := by
+    unfold marginal
+    rw [← sumOver_mul_left]
+    exact sumOver_congr_valid d hok.dom_wf _ _ _ _ hσ hjoint
+  have hZ' : partition d pots' ≠ 0 := by
+    intro h; apply hZ; rw [hpart, h, mul_zero]
+  rw [(bp_marginals d cliques t order pots hok total hZ htot c hc σ hσ).2,
+      (bp_marginals d cliques' t' order' pots' hok' total hZ' htot c hc' σ hσ).2, hpart, hmarg]
+  rw [mul_left_comm, mul_div_mul_left _ _ hk]
+
+/-- shifting one log-space potential by the constant `log k` (`k + θ_c0` in the source's notation: `Factor.__add__` with a
+scalar; exp-space: every cell of that table times `k`) multiplies the product by `k` at every in-range assignment -/
+theorem joint_addScalar (d : Dom) (hd : d.WF) (pre post : CliqueVec (LogOf K)) (c0 : Clique) (f : Factor (LogOf K))
+    (hf : FactorOK d f) (k : K) (τ : Attr → Nat) (hτ : d.Valid τ) :
+    joint (pre ++ (c0, f.addScalar ⟨k⟩) :: post) τ = k * joint (pre ++ (c0, f) :: post) τ := by
+  have h : ((f.addScalar ⟨k⟩).sem τ).v = k * (f.sem τ).v := by
+    unfold Factor.addScalar
+    rw [sem_mapVals _ f τ hf.1 (hf.valid hd hτ)]
+    rfl
+  unfold joint
+  simp only [List.map_append, List.map_cons, List.prod_append, List.prod_cons, h]
+  ring
+
+/-- **adding a constant to any potential does not change the answer**: multiplying ONE exp-space potential by a constant
+`k > 0` (adding `log k` to the log-space table `θ_c0`) leaves every cell of every returned table unchanged -/
+theorem bp_const_shift_invariant (d : Dom) (cliques : List Clique) (t : Tree) (order : List (Clique × Clique))
+    (pre post : CliqueVec (LogOf K)) (c0 : Clique) (f : Factor (LogOf K))
+    (hok : ModelOK d cliques t order (pre ++ (c0, f) :: post)) (total : LogOf K) (k : K) (hk : 0 < k)
+    (hZ : partition d (pre ++ (c0, f) :: post) ≠ 0) (htot : 0 < total.v) (c : Clique) (hc : c ∈ cliques)
+    (σ : Attr → Nat) (hσ : d.Valid σ) :
+    (((beliefPropagation cliques order (pre ++ (c0, f.addScalar ⟨k⟩) :: post) total).get c).sem σ).v
+      = (((beliefPropagation cliques order (pre ++ (c0, f) :: post) total).get c).sem σ).v := by
+  have hmem : (c0, f) ∈ pre ++ (c0, f) :: post := by simp
+  have hc0 : c0 ∈ cliques := by rw [← hok.keys]; exact List.mem_map_of_mem (f := Prod.fst) hmem
+  obtain ⟨hwf, hperm, hagr⟩ := hok.pot_ok _ hmem
+  have hfok : FactorOK d f := ⟨hwf, hagr, fun a ha => (hok.clique_ok c0 hc0).2 a (hperm.subset ha)⟩
+  have hok' : ModelOK d cliques t order (pre ++ (c0, f.addScalar ⟨k⟩) :: post) := by
+    refine ⟨hok.dom_wf, hok.nodes, hok.jt, hok.clique_ok, ?_, ?_, ?_⟩
+    · rw [← hok.keys]; simp
+    · intro p hp
+      rcases List.mem_append.mp hp with h | h
+      · exact hok.pot_ok p (List.mem_append_left _ h)
+      · rcases List.mem_cons.mp h with rfl | h
+        · exact ⟨mapVals_WF _ f hwf, hperm, hagr⟩
+        · exact hok.pot_ok p (List.mem_append_right _ (List.mem_cons_of_mem _ h))
+    · intro p hp x hx
+      rcases List.mem_append.mp hp with h | h
+      · exact hok.nonneg p (List.mem_append_left _ h) x hx
+      · rcases List.mem_cons.mp h with rfl | h
+        · have hx' : x ∈ (f.vals.data.map (fun v => Scalar.add (⟨k⟩ : LogOf K) v)).toList := hx
+          rw [Array.toList_map] at hx'
+          obtain ⟨y, hy, rfl⟩ := List.mem_map.mp hx'
+          exact mul_nonneg hk.le (hok.nonneg _ hmem y hy)
+        · exact hok.nonneg p (List.mem_append_right _ (List.mem_cons_of_mem _ h)) x hx
+  refine (bp_tree_indep d cliques cliques t t order order _ _ hok hok' total k⁻¹ (inv_ne_zero hk.ne') (fun τ hτ => ?_)
+    hZ htot c hc hc σ hσ).symm
+  rw [joint_addScalar d hok.dom_wf pre post c0 f hfok k τ hτ, ← mul_assoc, inv_mul_cancel₀ hk.ne', one_mul]
 
 end PGM.C01
